@@ -20,6 +20,7 @@
 #include <sys/stat.h>
 #include <sys/time.h>
 #include <sys/wait.h>
+#include <time.h>
 #include <unistd.h>
 
 #include <cstdint>
@@ -327,6 +328,13 @@ inline void OnTerminate() {
 }
 }  // namespace detail
 
+// Worker stderr (sanitizer reports included) goes to <out>.san.<pid>; removed when empty.
+inline void RedirectStderr(const std::string &out) {
+  std::string p = out + ".san." + std::to_string(getpid());
+  int fd = open(p.c_str(), O_WRONLY | O_CREAT | O_TRUNC, 0666);
+  if (fd >= 0) { dup2(fd, 2); close(fd); }
+}
+
 // Runs cases k = shard, shard+nshards, ... < cases, in forked workers.
 // tolerated_exception(msg) may turn an uncaught-exception death into a tolerated exit.
 inline int RunHarness(int argc, char **argv, const char *default_prop, CaseFn fn,
@@ -378,14 +386,29 @@ inline int RunHarness(int argc, char **argv, const char *default_prop, CaseFn fn
       it.it_value.tv_usec = static_cast<suseconds_t>((b - static_cast<time_t>(b)) * 1e6);
       setitimer(ITIMER_VIRTUAL, &it, nullptr);
       shm->in_case = 1;
+      struct timespec t0, t1;
+      clock_gettime(CLOCK_MONOTONIC, &t0);
       fn(k, rng, rep);
+      clock_gettime(CLOCK_MONOTONIC, &t1);
       shm->in_case = 0;
+      {
+        const double dt = (t1.tv_sec - t0.tv_sec) + 1e-9 * (t1.tv_nsec - t0.tv_nsec);
+        rep.maxv("case_seconds", dt);
+        if (dt > 3.0) {
+          Reporter::WriteAll(out_fd, "{\"t\":\"slow\",\"k\":" + std::to_string(k) + ",\"s\":" + std::to_string(dt) + ",\"note\":\"" + JsonEscape(shm->note) + "\"}\n");
+        }
+      }
       memset(&it, 0, sizeof it);
       setitimer(ITIMER_VIRTUAL, &it, nullptr);
       rep.case_done();
       if ((p - from) % 512 == 511) rep.flush();
     }
     rep.flush();
+    {
+      std::string sp = a.out + ".san." + std::to_string(getpid());
+      struct stat st;
+      if (stat(sp.c_str(), &st) == 0 && st.st_size == 0) unlink(sp.c_str());
+    }
     if (detail::g_crash_fd() >= 0) {
       close(detail::g_crash_fd());
       unlink((a.out + ".crash." + std::to_string(getpid())).c_str());
@@ -410,6 +433,7 @@ inline int RunHarness(int argc, char **argv, const char *default_prop, CaseFn fn
     pid_t pid = fork();
     if (pid < 0) { perror("fork"); return 2; }
     if (pid == 0) {
+      RedirectStderr(a.out);
       run_range(pos, ks.size(), 1.0);
       _exit(0);
     }
@@ -430,7 +454,7 @@ inline int RunHarness(int argc, char **argv, const char *default_prop, CaseFn fn
       shm->timed_out = 0;
       pid_t p2 = fork();
       if (p2 == 0) {
-        // Find k's position.
+        RedirectStderr(a.out);
         run_range(np - 1, np, 4.0);
         _exit(0);
       }
